@@ -630,7 +630,10 @@ func scenC12(c *ctx) {
 		e := doURLRoundTrip(k("url"), []string{"totp", "hotp"}[i%2], c.urlText(false), c.urlText(true), "JBSWY3DPEHPK3PXP", uint8(c.rng.Intn(11)), uint8(c.rng.Intn(3)), []uint64{0, 30}[i%2])
 		yMap(&e)["glob"] = map[string]any{"pre": nz(g0), "post": nz(globalsDigest())}
 		c.rec.Emit(e)
-		raw := fmt.Sprintf("otpauth://totp/%s:%s?secret=ABC&digits=%d&period=%d&algorithm=SHA256&issuer=x", url.PathEscape(c.urlText(false)), url.PathEscape(c.urlText(true)), c.rng.Intn(12), c.rng.Intn(100))
+		// (type, scheme and parameter names in every letter case: a parser that normalises must not do it in place)
+		raw := fmt.Sprintf("%s://%s/%s:%s?secret=ABC&digits=%d&period=%d&%s=SHA256&issuer=x", []string{"otpauth", "OTPAUTH", "otpauth", "OtpAuth"}[i%4],
+			[]string{"totp", "TOTP", "Totp", "hotp", "HOTP", "hOtP"}[i%6], url.PathEscape(c.urlText(false)), url.PathEscape(c.urlText(true)), c.rng.Intn(12), c.rng.Intn(100),
+			[]string{"algorithm", "Algorithm", "ALGORITHM"}[i%3])
 		if u, err := url.Parse(raw); err == nil {
 			pre := fmt.Sprintf("%+v|%s", *u, u.String())
 			e := doParseURLRaw(k("parse"), u)
